@@ -20,6 +20,9 @@ pub enum Style {
     QuicClose { code: u64, reason_hex: String },
     ResetStream { code: u64 },
     FinInsideFrame { keep: usize },
+    /// a frame of a type the library does not know (not GREASE) that announces `declared`
+    /// payload bytes, of which only `sent` are written before the FIN
+    FinInsideUnknownFrame { declared: usize, sent: usize },
     CapsuleTooShort { len: usize },
     CapsuleReasonTooLong { len: usize },
     CapsuleBadUtf8,
@@ -88,7 +91,11 @@ pub fn gen_plan(seed: u64, index: usize, _tier: Tier) -> Plan {
             Style::QuicClose { code, reason_hex: hex(&rng.bytes(len)) }
         }
         6 => Style::ResetStream { code: *rng.pick(&VARINT_CODES) },
-        7 => Style::FinInsideFrame { keep: rng.usize(1, 10) },
+        7 if rng.coin() => Style::FinInsideFrame { keep: rng.usize(1, 10) },
+        7 => {
+            let sent = *rng.pick(&[0usize, 1, 63, 64, 65, 128, 256, 300]);
+            Style::FinInsideUnknownFrame { declared: sent + *rng.pick(&[1usize, 64, 500]), sent }
+        }
         8 => Style::CapsuleTooShort { len: rng.usize(0, 3) },
         9 => Style::CapsuleReasonTooLong { len: *rng.pick(&[1025usize, 1026, 2000, 4000]) },
         10 => Style::CapsuleBadUtf8,
@@ -155,6 +162,13 @@ pub fn compile(p: &Plan) -> Script {
             let f = rc::frame(rc::FRAME_DATA, &rc::close_capsule(7, b"never complete"));
             let keep = (*keep).min(f.len() - 1).max(1);
             acts.push(Act::Write { slot: SLOT_CONNECT, hex: hex(&f[..keep]) });
+            acts.push(Act::Fin { slot: SLOT_CONNECT });
+        }
+        Style::FinInsideUnknownFrame { declared, sent } => {
+            let mut f = rc::varint(0x0d);
+            f.extend_from_slice(&rc::varint(*declared as u64));
+            f.extend_from_slice(&vec![0x5a; *sent]);
+            acts.push(Act::Write { slot: SLOT_CONNECT, hex: hex(&f) });
             acts.push(Act::Fin { slot: SLOT_CONNECT });
         }
         Style::CapsuleTooShort { len } => {
@@ -265,7 +279,7 @@ pub fn execute(plan: &Plan, trace: bool) -> Exec {
                 }
             }
         }
-        Style::ResetStream { .. } | Style::FinInsideFrame { .. } | Style::CapsuleTooShort { .. } | Style::CapsuleReasonTooLong { .. } | Style::CapsuleBadUtf8 => {
+        Style::ResetStream { .. } | Style::FinInsideFrame { .. } | Style::FinInsideUnknownFrame { .. } | Style::CapsuleTooShort { .. } | Style::CapsuleReasonTooLong { .. } | Style::CapsuleBadUtf8 => {
             // a protocol failure, never an application close; every report names the same
             // local error and the wire carries that error's code
             check_reports(&mut ex, &obs, &what, &|e| matches!(e, ConnectionError::LocalH3Error(_)), "a protocol-failure variant (LocalH3Error)");
@@ -451,7 +465,7 @@ pub fn def() -> PropertyDef {
     PropertyDef {
         id: "C04",
         scenarios: vec![Box::new(Typed(C04Raw)), Box::new(Typed(C04E2E))],
-        rule: "raw-termination: after a valid session set-up the scripted raw peer (both roles, alternating) ends the session by: close capsule (32-bit code boundaries and random; valid UTF-8 reasons of 0..1024 bytes incl. multi-byte characters ending exactly at the limit; in a third of the runs the same DATA frame goes on with a reserved-type capsule of 3 or 1100 bytes or with a second close capsule - the first capsule's values count), clean FIN of the request stream, QUIC application close (62-bit code boundaries and random; arbitrary reason bytes), reset of the request stream, FIN inside a frame, malformed capsules (payload shorter than 4 bytes, reason of 1025+ bytes, invalid UTF-8), and an incomplete capsule followed by a complete one; at a generated point of the session's life (idle, with open uni/bidi streams, after the pending accepts were cancelled and reissued, after ignorable GREASE/unknown elements). Oracle: the three pending calls and three calls issued afterwards all return ApplicationClosed with exactly the peer's code and reason bytes ((0,\"\") for the clean FIN); abrupt / malformed endings are reported as one and the same LocalH3Error on every call, never as ApplicationClosed; the code on the wire is H3_NO_ERROR for clean endings and the local error's code otherwise; streams opened before the ending were handed over. e2e-connection-close: a real peer calls Connection::close(code, reason); the other side's pending calls and closed() report exactly that code and reason. Every run is non-trivial; distinct = distinct plan hashes.",
+        rule: "raw-termination: after a valid session set-up the scripted raw peer (both roles, alternating) ends the session by: close capsule (32-bit code boundaries and random; valid UTF-8 reasons of 0..1024 bytes incl. multi-byte characters ending exactly at the limit; in a third of the runs the same DATA frame goes on with a reserved-type capsule of 3 or 1100 bytes or with a second close capsule - the first capsule's values count), clean FIN of the request stream, QUIC application close (62-bit code boundaries and random; arbitrary reason bytes), reset of the request stream, FIN inside a frame (a DATA frame, or a frame of unknown type cut after 0, 1, 63, 64, 65, 128 ... payload bytes), malformed capsules (payload shorter than 4 bytes, reason of 1025+ bytes, invalid UTF-8), and an incomplete capsule followed by a complete one; at a generated point of the session's life (idle, with open uni/bidi streams, after the pending accepts were cancelled and reissued, after ignorable GREASE/unknown elements). Oracle: the three pending calls and three calls issued afterwards all return ApplicationClosed with exactly the peer's code and reason bytes ((0,\"\") for the clean FIN); abrupt / malformed endings are reported as one and the same LocalH3Error on every call, never as ApplicationClosed; the code on the wire is H3_NO_ERROR for clean endings and the local error's code otherwise; streams opened before the ending were handed over. e2e-connection-close: a real peer calls Connection::close(code, reason); the other side's pending calls and closed() report exactly that code and reason. Every run is non-trivial; distinct = distinct plan hashes.",
         assumptions: vec![
             "the close capsule is written in one piece here (segmentation is C05's subject)",
             "raw peer + reference codec are harness code; current-thread runtime; fault-free network",
